@@ -14,9 +14,10 @@ C15 — model of modules/caddyhttp/encode/encode.go, transliterated function by 
 * payloads are an abstract type `α` with a size (`Cfg.size`) — `Bytes` in the theorems, a length in the driver;
   `http.DetectContentType` is the parameter `Cfg.detect`; the response matcher is the parameter `Cfg.matcher`
   (`Matcher.matches` is the concrete `caddyhttp.ResponseMatcher` family used by the driver).
-Quirks are kept: a deferred status is lost when `ReadFrom` bypasses `Write` (`minimum_length < 0`), `Close` may
-open the encoder after plain bytes went out, only the first `;`-parameter of an Accept-Encoding element is read,
-`*` is not a wildcard, only a single-valued `If-None-Match` is un-suffixed.
+Quirks are kept: only the first `;`-parameter of an Accept-Encoding element is read, `*` is not a wildcard, only
+a single-valued `If-None-Match` is un-suffixed, a 1xx status without a final WriteHeader is forwarded twice.
+(The `ReadFrom` of before commit 954786b — which lost the deferred status when `minimum_length < 0` — is kept
+as `rwReadFromOld` in Witness.lean.)
 -/
 import CaddyModel.C15.Consts
 
@@ -404,9 +405,11 @@ def sniffLoop (cfg : Cfg α) : List α → Nat → St α → St α × List α ×
     else sniffLoop cfg cs (n - cfg.size c)
       { rwWrite cfg st c with unreal := st.unreal || decide (cfg.size c > n) }
 
-/-- the rest goes to the encoder (`io.Copy(rw.w, r)`) or straight down (`rf.ReadFrom(r)`) -/
+/-- the rest goes to the encoder (`io.Copy(rw.w, r)`) or straight down (`rf.ReadFrom(r)`); before the reader
+    is handed to the wrapped writer the header is committed if nothing above did it (encode.go:389-397,
+    commit 954786b: no sniffing happened because `minimum_length` is negative) -/
 def copyRest (st : St α) (chunks : List α) : St α :=
-  if st.encOpen then chunks.foldl encWrite st else chunks.foldl dsWrite st
+  if st.encOpen then chunks.foldl encWrite st else chunks.foldl dsWrite (commitHeader st)
 
 def afterSniff (res : St α × List α × Nat) : St α :=
   if res.2.2 = 0 then copyRest res.1 res.2.1 else res.1
